@@ -64,6 +64,11 @@ func c16Decode(k c16Case, spanOn bool, report func(class, msg string)) (vals [][
 			st := baseStruct(string(want[i]), string(want[i+1]), string(want[i+2]), nil)
 			input = ref.Encode(input, &st)
 		}
+	case "ApplicationException.FastRead":
+		for i := 0; i < k.N; i++ {
+			st := exceptionStruct(string(want[i]), int32(i))
+			input = ref.Encode(input, &st)
+		}
 	case "ConvertUnknownFields":
 		// the string sits at the top level, inside a list, a set, as a map key+value, or inside a nested struct
 		for i := 0; i < k.N; i++ {
@@ -168,6 +173,14 @@ func c16Decode(k c16Case, spanOn bool, report func(class, msg string)) (vals [][
 				continue
 			}
 			var x base.Base
+			if (i/3)%2 == 1 {
+				// the receiving struct already holds this very message (decoded before from another copy of the bytes): a
+				// "field unchanged, keep it" shortcut must not alias the new input either
+				var t base.Base
+				if l0, e0 := t.FastRead(input[off:]); e0 == nil {
+					x.FastRead(append([]byte{}, input[off:off+l0]...))
+				}
+			}
 			l, err := x.FastRead(input[off:])
 			if err != nil {
 				report("decode-error", fmt.Sprintf("decode #%d failed: %v", i, err))
@@ -175,6 +188,24 @@ func c16Decode(k c16Case, spanOn bool, report func(class, msg string)) (vals [][
 			}
 			off += l
 			rets = append(rets, ret{s: x.LogID, isS: true}, ret{s: x.Caller, isS: true}, ret{s: x.Addr, isS: true})
+		case "ApplicationException.FastRead":
+			x := thrift.NewApplicationException(0, "")
+			switch i % 3 {
+			case 1: // built by the constructor with the message that arrives
+				x = thrift.NewApplicationException(int32(i), string(want[i]))
+			case 2: // decoded before from another copy of the bytes
+				t := thrift.NewApplicationException(0, "")
+				if l0, e0 := t.FastRead(input[off:]); e0 == nil {
+					x.FastRead(append([]byte{}, input[off:off+l0]...))
+				}
+			}
+			l, err := x.FastRead(input[off:])
+			if err != nil || x.TypeID() != int32(i) {
+				report("decode-error", fmt.Sprintf("decode #%d failed: %v (type id %d)", i, err, x.TypeID()))
+				return nil, false
+			}
+			off += l
+			rets = append(rets, ret{s: x.Msg(), isS: true})
 		}
 	}
 	if k.Entry == "ConvertUnknownFields" {
@@ -327,7 +358,7 @@ func c16One(c *mc.Ctx, k c16Case) {
 	}
 }
 
-var c16Entries = []string{"Binary.ReadBinary", "Binary.ReadString", "BufferReader.ReadBinary/bytes", "BufferReader.ReadString/bytes", "BufferReader.ReadBinary/stream", "BufferReader.ReadString/stream", "BufferReader.ReadMessageBegin/stream", "Base.FastRead", "ConvertUnknownFields"}
+var c16Entries = []string{"Binary.ReadBinary", "Binary.ReadString", "BufferReader.ReadBinary/bytes", "BufferReader.ReadString/bytes", "BufferReader.ReadBinary/stream", "BufferReader.ReadString/stream", "BufferReader.ReadMessageBegin/stream", "Base.FastRead", "ApplicationException.FastRead", "ConvertUnknownFields"}
 
 func c16Run(c *mc.Ctx) {
 	th := c.Thorough()
@@ -357,14 +388,14 @@ func c16Run(c *mc.Ctx) {
 				chunk = 4097
 			}
 			nn := n
-			if (e == "Base.FastRead" || e == "ConvertUnknownFields" || e == "BufferReader.ReadMessageBegin/stream") && L > 131073 {
+			if (e == "Base.FastRead" || e == "ApplicationException.FastRead" || e == "ConvertUnknownFields" || e == "BufferReader.ReadMessageBegin/stream") && L > 131073 {
 				nn = 6
 			}
 			c.Distinct("run", e, L)
 			c16One(c, c16Case{Entry: e, Lens: []int{L}, N: nn, Chunk: chunk})
 		}
 	}
-	c.Done(fmt.Sprintf("runs of consecutive decodes wrapping the 1 MiB span (%d bytes per run) for each of %d length classes (0 .. 1 MiB+1, both edges of every span class) x 9 entry points x span cache off/on", wrap, len(c16Lens)))
+	c.Done(fmt.Sprintf("runs of consecutive decodes wrapping the 1 MiB span (%d bytes per run) for each of %d length classes (0 .. 1 MiB+1, both edges of every span class) x %d entry points x span cache off/on", wrap, len(c16Lens), len(c16Entries)))
 	// mixed-class runs: all ordered pairs of classes alternating
 	mixed := []int{0, 1, 127, 128, 129, 256, 1024, 4096, 65536, 131071, 131072, 131073}
 	for _, a := range mixed {
@@ -392,7 +423,7 @@ func c16Run(c *mc.Ctx) {
 func init() {
 	Register(&Check{
 		ID: "C16", Level: "exploration",
-		Rule:        "for every value length class across the span allocator's size classes (0, <128 B, both edges of each class up to 128 KiB, 1 MiB, 1 MiB+1) a run of consecutive decodes from one input long enough to wrap the 1 MiB span, all results retained; all ordered pairs of classes alternating; entry points Binary.ReadBinary/ReadString, BufferReader.ReadBinary/ReadString over bytes and stream readers (with Release between decodes), Base.FastRead, ConvertUnknownFields; both span-cache settings; oracle = values unchanged after the input is overwritten and pool buffers are recycled+scribbled, capacity ranges pairwise disjoint and disjoint from the input (sorted address sweep), siblings and input unchanged after append/overwrite; distinct = distinct (entry, length classes)",
+		Rule:        "for every value length class across the span allocator's size classes (0, <128 B, both edges of each class up to 128 KiB, 1 MiB, 1 MiB+1) a run of consecutive decodes from one input long enough to wrap the 1 MiB span, all results retained; all ordered pairs of classes alternating; entry points Binary.ReadBinary/ReadString, BufferReader.ReadBinary/ReadString over bytes and stream readers (with Release between decodes), Base.FastRead and ApplicationException.FastRead (also into values that already hold the arriving message), ConvertUnknownFields; both span-cache settings; oracle = values unchanged after the input is overwritten and pool buffers are recycled+scribbled, capacity ranges pairwise disjoint and disjoint from the input (sorted address sweep), siblings and input unchanged after append/overwrite; distinct = distinct (entry, length classes)",
 		Assumptions: []string{"the span-cache switch is a process-wide global: each run toggles it sequentially inside a single-threaded worker and installs a fresh span cache"},
 		Run:         c16Run,
 		Replay: func(c *mc.Ctx, sub string, raw json.RawMessage) {
